@@ -47,7 +47,7 @@ type lintFunction struct {
 }
 
 func runC05(c *core.Ctx) {
-	c.Explanation = "Cross-table agreement, decided by extracting both sides' compiled tables from typed syntax and SSA and comparing them cell by cell (nothing is executed): (ref.stmt) the scope sets in which the linter admits restart / error / synthetic / esi equal the scope sets in which the simulator executes them; (ref.return) every return(action) the linter admits in a scope has a successor in the simulator's transition function (the table extracted for C06); (ref.func) every built-in the linter knows exists in the simulator's function table with at least the linter's scopes, every arity the linter admits is accepted by the simulator's validator and every argument kind agrees with the simulator's argument table (STRING parameters accept anything the simulator stringifies); (ref.var) for every predefined variable × {get,set,unset} × scope the linter admits, the simulator's variable object for that scope has a case, pattern or prefix for the name somewhere along its Get/Set/Unset chain — absence means the access can only end in the `undefined variable` error; (ref.vartype) where the simulator's case returns a value of statically known kind it is the kind the linter promises; (ref.op) for every assignment operator × left kind × right kind × {literal, variable} the linter's type switch admits, a partial evaluation of the simulator's implementation with the kinds bound finds a path that returns no error. Necessary for: what lints clean does not fail in the simulator as undefined, out of scope, mistyped or with a wrong arity."
+	c.Explanation = "Cross-table agreement, decided by extracting both sides' compiled tables from typed syntax and SSA and comparing them cell by cell (nothing is executed): (ref.stmt) the scope sets in which the linter admits restart / error / synthetic / esi equal the scope sets in which the simulator executes them; (ref.return) every return(action) the linter admits in a scope has a successor in the simulator's transition function (the table extracted for C06); (ref.func) every built-in the linter knows exists in the simulator's function table with at least the linter's scopes, every arity the linter admits is accepted by the simulator's validator and every argument kind agrees with the simulator's argument table (STRING parameters accept anything the simulator stringifies); (ref.var) for every predefined variable × {get,set,unset} × scope the linter admits, the simulator's variable object for that scope has a case, pattern or prefix for the name somewhere along its Get/Set/Unset chain — absence means the access can only end in the `undefined variable` error; (ref.vartype) where the simulator's case returns a value of statically known kind it is the kind the linter promises; (ref.op) for every assignment operator × left kind × right kind × {literal, variable} the linter's type switch admits, a partial evaluation of the simulator's implementation with the kinds bound finds a path that returns no error. Necessary for: what lints clean does not fail in the simulator as undefined, out of scope, mistyped or with a wrong arity. (ref.multiscope) the accessors of the linter context (Get, Set, Unset, GetFunction) admit an access only when `Scopes & current == current` (every annotated scope allows it), not on mere overlap."
 	c.NotCovered = []string{"that the linter's tables equal Fastly's documentation (the bundled YAML is the reference; only the generated Go tables are compared with each other)", "values the simulator returns for a variable", "run-time failures that depend on operand values (division by zero, parse errors)"}
 	lp := c.Prog.Pkg("linter/context")
 	if lp == nil {
